@@ -1,0 +1,22 @@
+//go:build verif
+
+package bramble
+
+// Exported handles for the verification harness in /verif (build tag "verif" only; nothing here is compiled
+// into the gateway).
+
+// VerifReload runs the configuration reload synchronously, exactly as Watch does on a file event.
+func (c *Config) VerifReload() error { return c.reload() }
+
+// VerifClose releases the file watcher of a Config obtained from GetConfig.
+func (c *Config) VerifClose() {
+	if c.watcher != nil {
+		c.watcher.Close()
+	}
+}
+
+// VerifExecutableSchema returns the executable schema built by Init.
+func (c *Config) VerifExecutableSchema() *ExecutableSchema { return c.executableSchema }
+
+// VerifPlugins returns the plugins configured by the last Load.
+func (c *Config) VerifPlugins() []Plugin { return c.plugins }
